@@ -337,7 +337,7 @@ struct Engine {
     for (size_t oi = 0; oi < ops.size(); ++oi) {
       if (!only.empty() && ops[oi].name.find(only) == std::string::npos) continue;
       bool opcomplete = true; for (auto& d : stats[oi].doms) opcomplete = opcomplete && d.complete;
-      for (size_t k = 0; k < ops[oi].classes.size(); ++k) if (opcomplete && stats[oi].cls[k] == 0) {
+      for (size_t k = 0; k < ops[oi].classes.size(); ++k) if (opcomplete && cap == 0 && stats[oi].cls[k] == 0) {   // class coverage is a property of the full domains, not of a capped sub-lattice
         std::fprintf(stderr, "glmx: ENGINE ERROR: op %s never reached outcome class '%s' (vacuous)\n", ops[oi].name.c_str(), ops[oi].classes[k].c_str());
         engine_err = 1; vac += ops[oi].name + ":" + ops[oi].classes[k] + " "; }
     }
